@@ -209,7 +209,18 @@ func runFilterOps(ops []fop) *frun {
 	return r
 }
 
+// CheckC17 is kept for direct use: unit part only.
 func CheckC17(run *harness.Run) int {
+	fs, cov, _ := CheckC17Unit(run)
+	if fs == nil && cov == nil {
+		return replayC17(run)
+	}
+	run.WriteEvidence("exploration", cov, []string{"unit part only"}, len(fs))
+	return run.Conclude(fs, nil)
+}
+
+// CheckC17Unit runs the filter-level part and returns findings and evidence entries.
+func CheckC17Unit(run *harness.Run) ([]harness.Finding, map[string]interface{}, []string) {
 	var findings []harness.Finding
 	byRule := map[string]int{}
 	record := func(ops []fop, r *frun) {
@@ -226,7 +237,7 @@ func CheckC17(run *harness.Run) int {
 		findings = append(findings, harness.Finding{Prop: "C17", Rule: r.rule, Detail: fmt.Sprintf("%s; ops=%v", r.viol, l), Replay: path})
 	}
 	if run.Replay != "" {
-		return replayC17(run)
+		return nil, nil, nil
 	}
 	// alphabet over heights 1..3 (+4 for receives)
 	var alpha []fop
@@ -317,9 +328,8 @@ func CheckC17(run *harness.Run) int {
 		"cached_messages_evicted_by_a_later_higher_height_(not_judged_for_loss)": evicted,
 		"violations_by_rule":  byRule,
 	}
-	run.WriteEvidence("exploration", cov, []string{"'no message for a higher height accepted before it' is read as 'before its height starts': a cached message evicted by a later message for a higher height is not judged for loss (see DESIGN.md, C17)", "messages are PREPAREs built by the real MessageFactory; the view field carries the message id"}, len(findings))
-	fmt.Printf("C17 %s: sequences=%d (exhaustive %d) deliveries judged=%d\n", run.Tier, seqs, exhaustiveSeqs, delivs)
-	return run.Conclude(findings, nil)
+	fmt.Printf("C17 %s (filter level): sequences=%d (exhaustive %d) deliveries judged=%d\n", run.Tier, seqs, exhaustiveSeqs, delivs)
+	return findings, cov, nil
 }
 
 func replayC17(run *harness.Run) int {
